@@ -12,6 +12,10 @@ PY_VT = os.environ.get("VERIF_PY_VT") or shutil.which("python3-vt") or "/opt/ver
 PY_NATIVE = os.environ.get("VERIF_PY_NATIVE", "/venv/bin/python")
 NCPU = int(os.environ.get("VERIF_JOBS", str(os.cpu_count() or 4)))
 EXIT_HARNESS_ERROR = 3
+# evidence is only (re)written for the real tree; runs against a scratch copy
+# (seeded mutants, VERIF_REPO=...) write theirs next to that copy
+EVID = os.environ.get("VERIF_EVIDENCE_DIR") or (os.path.join(VERIF, "evidence") if os.path.realpath(REPO) == "/repo"
+                                                 else os.path.join(REPO, ".verif-evidence"))
 
 PROPS = {json.loads(l)["id"]: json.loads(l) for l in open(os.path.join(VERIF, "properties.jsonl")) if l.strip()}
 
@@ -180,7 +184,7 @@ def parse_call_args(argstr):
 
 
 def write_replay(pid, modfile, func, args, kwargs, tier, message, env=None, kind="harness"):
-  d = os.path.join(VERIF, "evidence", "replays")
+  d = os.path.join(EVID, "replays")
   os.makedirs(d, exist_ok=True)
   base = "%s-%s" % (pid, func)
   n = 0
@@ -190,7 +194,7 @@ def write_replay(pid, modfile, func, args, kwargs, tier, message, env=None, kind
     json.dump({"property": pid, "kind": kind, "module": os.path.relpath(modfile, VERIF),
                "function": func, "args": args, "kwargs": kwargs, "tier": tier,
                "env": env or {}, "message": message,
-               "how": "cd /verif && bin/replay " + os.path.relpath(path, VERIF)}, f, indent=1)
+               "how": "cd /verif && bin/replay " + path}, f, indent=1)
   return path
 
 
@@ -425,8 +429,8 @@ def _check(pid, tier, seed, mods, workdir, only, say, t0):
     "wall_s": round(wall, 2),
     "violations": len(violations),
   }
-  os.makedirs(os.path.join(VERIF, "evidence"), exist_ok=True)
-  with open(os.path.join(VERIF, "evidence", pid + ".json"), "w") as f:
+  os.makedirs(EVID, exist_ok=True)
+  with open(os.path.join(EVID, pid + ".json"), "w") as f:
     json.dump(ev, f, indent=1, default=str)
   # ---- report ------------------------------------------------------------
   say("%s %s: obligations=%d discharged=%d paths=%d reached=%d z3_queries=%d solver_s=%.1f wall=%.1fs" %
